@@ -443,6 +443,248 @@ def check_delta_headers(ctx, rule="R42.delta"):
     return n
 
 
+def spec_decode_delta(bs, bits, why=None):
+    """DELTA_BINARY_PACKED by the specification, on concrete bytes -> (values, bytes used) or None"""
+    pos = [0]
+
+    def uv():
+        v = 0
+        sh = 0
+        while True:
+            if pos[0] >= len(bs):
+                raise IndexError
+            b = bs[pos[0]]
+            pos[0] += 1
+            v |= (b & 0x7F) << sh
+            if not (b & 0x80):
+                return v
+            sh += 7
+
+    def zz():
+        u = uv()
+        return (u >> 1) ^ -(u & 1)
+    try:
+        block, nmini, total, first = uv(), uv(), uv(), zz()
+        if nmini == 0 or block % nmini or (block // nmini) % 32:
+            return None
+        per = block // nmini
+        m = (1 << bits) - 1
+        out = [first]
+        while len(out) < total:
+            md = zz()
+            widths = bs[pos[0]:pos[0] + nmini]
+            if len(widths) < nmini:
+                return None
+            pos[0] += nmini
+            for mb in range(nmini):
+                if len(out) >= total:
+                    break
+                w = widths[mb]
+                if w > bits:
+                    # no delta of a N-bit type needs more than N bits once differences wrap around in the
+                    # type's width, and the reference readers refuse such a mini-block
+                    if why is not None:
+                        why.append("a mini-block of %d bits for a %d-bit type" % (w, bits))
+                    return None
+                chunk = bs[pos[0]:pos[0] + per * w // 8]
+                if len(chunk) < per * w // 8:
+                    return None
+                pos[0] += per * w // 8
+                for i in range(per):
+                    if len(out) >= total:
+                        break
+                    x = 0
+                    for j in range(w):
+                        bit = i * w + j
+                        if (chunk[bit // 8] >> (bit % 8)) & 1:
+                            x |= 1 << j
+                    out.append((out[-1] + md + x) & m)
+        sgn = lambda v: v - (1 << bits) if v >> (bits - 1) else v
+        return [sgn(v & m) for v in out[:total]], pos[0]
+    except IndexError:
+        return None
+
+
+def spec_encode_delta(vals, bits, block=128, nmini=4, junk=0, min_width=0):
+    """DELTA_BINARY_PACKED by the specification (differences wrap around in the type's width, every mini-block gets the
+    smallest width that holds its largest adjusted delta, but never less than min_width - a wider width is legal)."""
+    m = (1 << bits) - 1
+    sgn = lambda v: v - (1 << bits) if (v >> (bits - 1)) & 1 else v
+    per = block // nmini
+    out = varint(block) + varint(nmini) + varint(len(vals)) + varint(_zz(vals[0]))
+    deltas = [sgn((vals[i] - vals[i - 1]) & m) for i in range(1, len(vals))]
+    for b0 in range(0, len(deltas), block):
+        blk = deltas[b0:b0 + block]
+        md = min(blk)
+        adj = [(d - md) & m for d in blk]
+        widths = []
+        payload = []
+        for mb in range(nmini):
+            part = adj[mb * per:(mb + 1) * per]
+            if not part:
+                widths.append(junk)
+                continue
+            w = max(max(part).bit_length(), min_width)
+            widths.append(w)
+            part = part + [0] * (per - len(part))
+            acc = 0
+            for i, x in enumerate(part):
+                acc |= x << (i * w)
+            payload += [(acc >> (8 * k)) & 0xFF for k in range(per * w // 8)]
+        out += varint(_zz(md)) + widths + payload
+    return out
+
+
+def delta_sequences(bits):
+    """value sequences that decide the DELTA_BINARY_PACKED arithmetic: every mini-block width class (0, 1, odd, 8, 17, 31, 32
+    and - for 64-bit values - 33, 40, 47, 58, 63, 64), widths that differ between the mini-blocks of one block, blocks that
+    are partly filled, negative min deltas, and differences that wrap around."""
+    lo, hi = -(1 << (bits - 1)), (1 << (bits - 1)) - 1
+    wrap = lambda v: ((v + (1 << (bits - 1))) % (1 << bits)) - (1 << (bits - 1))
+    seqs = []
+    for count in (1, 2, 3, 33, 34, 129, 130):
+        seqs.append(("constant delta 3", [wrap(7 + 3 * k) for k in range(count)]))
+        seqs.append(("constant delta -2", [wrap(-5 - 2 * k) for k in range(count)]))
+        seqs.append(("deltas 1 and 2 alternating", [wrap(100 + (k // 2) * 3 + (k % 2)) for k in range(count)]))
+    spans = [3, 5, 8, 13, 17, 24, 31, 32] + ([33, 40, 47, 58, 63] if bits == 64 else [])
+    for sp in spans:
+        # deltas alternate between about +2^(sp-1) and a small negative step: adjusted deltas need sp bits (give or take one)
+        big = (1 << (sp - 1)) - 3
+        v, sq = 11, []
+        for k in range(70):
+            sq.append(wrap(v))
+            v += big + k if k % 2 == 0 else -7 - k
+        seqs.append(("deltas spanning about 2^%d" % sp, sq))
+    # one narrow and one wide mini-block in the same block, then a partly filled block
+    v, sq = -3, []
+    for k in range(150):
+        sq.append(wrap(v))
+        v += (k % 5) if k < 32 or k >= 128 else ((1 << (bits - 6)) // 3 * (1 if k % 2 else -1) + k)
+    seqs.append(("narrow and wide mini-blocks in one block", sq))
+    seqs.append(("the extremes of the type", [lo, hi, lo, hi, 0, hi, lo]))
+    seqs.append(("zero and the extremes", [0, hi, 0, lo, 0]))
+    seqs.append(("steps across the wrap-around", [hi, hi - 1, lo, lo + 1]))
+    return seqs
+
+
+def check_delta_decoder(ctx, rule="R42.delta"):
+    """The DELTA_BINARY_PACKED decoders on streams written from the specification for delta_sequences(): all bytes concrete.
+    The decoder returns the sequence and reports the stream's length as consumed. Each sequence is also written with
+    wider-than-needed mini-blocks (legal) and with junk in the width bytes of unused mini-blocks."""
+    P = ctx.P
+    n = 0
+    for name, bits in (("carquet_delta_decode_int32", 32), ("carquet_delta_decode_int64", 64)):
+        fn = P.fn_opt(name, "src/encoding/delta.c")
+        if fn is None:
+            continue
+        key = "delta-decode|src/encoding/delta.c:%s" % name
+        what = ("%s returns the values of specification-written DELTA_BINARY_PACKED streams over every mini-block width class of its type "
+                "(mixed widths, partly filled blocks, wider-than-needed and unused-width bytes, wrap-around differences, blocks of 128 / 4, 64 / 2 and 32 / 1) and consumes exactly the stream" % name)
+        bad = None
+        done = 0
+        m = (1 << bits) - 1
+        try:
+            for label, sq in delta_sequences(bits):
+                for junk, minw, geo in ((0, 0, (128, 4)), (0x3F, 0, (128, 4)), (0, 9, (128, 4)), (0, 0, (64, 2)), (0x11, 0, (32, 1))):
+                    if (minw or geo != (128, 4)) and (len(sq) > 70 or label.startswith("constant")) and len(sq) != 130:
+                        continue
+                    stream = spec_encode_delta(sq, bits, block=geo[0], nmini=geo[1], junk=junk, min_width=minw)
+                    chk = spec_decode_delta(stream, bits)
+                    assert chk is not None and chk[0] == sq and chk[1] == len(stream), (label, chk and chk[0][:5], sq[:5])
+                    end = len(stream)
+                    data = stream + [0xEE] * 3
+                    heap0 = {("in", i): b for i, b in enumerate(data)}
+                    ret, ev, heap = sem.run(P, fn, [Ptr("in", 0, 1), len(data), Ptr("out", 0, bits // 8), len(sq), Ptr("used", 0, 8)], heap0=heap0,
+                                            hooks={}, single=True, max_forks=8, budget=6000000, inline_depth=6)
+                    done += 1
+                    lab = "%d values, %s%s%s%s" % (len(sq), label, ", unused width bytes %#x" % junk if junk else "", ", widths padded to %d" % minw if minw else "",
+                                                   ", blocks of %d in %d mini-block(s)" % geo if geo != (128, 4) else "")
+                    if bad is not None:
+                        continue
+                    if ret != 0:
+                        bad = "%s: returns %r for a legal stream" % (lab, ret)
+                        continue
+                    if heap.get(("used", 0)) != end:
+                        bad = "%s: reports %r bytes consumed, the stream is %d bytes" % (lab, heap.get(("used", 0)), end)
+                        continue
+                    for k in range(len(sq)):
+                        v = heap.get(("out", k * (bits // 8)))
+                        if not isinstance(v, int):
+                            raise sem.Inconclusive("%s: value %d is not known after the call (%r)" % (lab, k, v))
+                        if (v & m) != (sq[k] & m):
+                            bad = "%s: value %d is %d, the stream holds %d" % (lab, k, sgn_(v & m, bits), sq[k])
+                            break
+        except (sem.Inconclusive, KeyError) as ex:
+            if bad:
+                ctx.ob(rule, key, P.where(fn.body), what, False, bad)
+                n += done
+                continue
+            ctx.inconclusive(rule, key, P.where(fn.body), what, "%s: %s" % (type(ex).__name__, ex))
+            continue
+        n += done
+        ctx.ob(rule, key, P.where(fn.body), what + " (%d streams)" % done, bad is None, bad or "")
+    return n
+
+
+def sgn_(v, bits):
+    return v - (1 << bits) if (v >> (bits - 1)) & 1 else v
+
+
+def check_delta_encoder(ctx, rule="R42.delta"):
+    """The DELTA_BINARY_PACKED encoders on sequences whose deltas are constant, alternate between two neighbours, or span
+    the whole range of the type (the cases that decide the header arithmetic: min delta, widths 0 / 1 / full, unsigned
+    differences): the bytes written, read by the specification's decoder, are the sequence."""
+    P = ctx.P
+    n = 0
+    for name, bits in (("carquet_delta_encode_int32", 32), ("carquet_delta_encode_int64", 64)):
+        fn = P.fn_opt(name, "src/encoding/delta.c")
+        if fn is None:
+            continue
+        key = "delta-encode|src/encoding/delta.c:%s" % name
+        what = ("what %s writes for sequences with constant deltas, deltas alternating between two neighbours, and deltas spanning the whole "
+                "range of the type is read back by the specification's DELTA_BINARY_PACKED decoder as the sequence" % name)
+        seqs = delta_sequences(bits)
+        bad = None
+        done = 0
+        try:
+            for label, sq in seqs:
+                heap0 = {("val", (bits // 8) * i): v for i, v in enumerate(sq)}
+                cap = 4096 + len(sq) * 16
+                ret, ev, heap = sem.run(P, fn, [Ptr("val", 0, bits // 8), len(sq), Ptr("out", 0, 1), cap, Ptr("used", 0, 8)], heap0=heap0, hooks={},
+                                        single=True, max_forks=8, budget=4000000, inline_depth=6)
+                done += 1
+                used = heap.get(("used", 0))
+                if ret != 0 or not isinstance(used, int):
+                    raise sem.Inconclusive("returns %r, bytes written %r for %d values" % (ret, used, len(sq)))
+                bs = [heap.get(("out", i)) for i in range(used)]
+                if any(not isinstance(b, int) for b in bs):
+                    # bytes the encoder left untouched inside what it reports as written (padding of a partial mini-block) read as 0
+                    zs = set()
+                    for zb, zl, zh in heap.get(("\0zeroed", 0), ()):
+                        if zb == "out":
+                            zs |= set(range(zl, zh))
+                    bs = [b if isinstance(b, int) else (0 if i in zs else None) for i, b in enumerate(bs)]
+                if any(b is None for b in bs):
+                    raise sem.Inconclusive("some of the %d reported bytes are not known after the call" % used)
+                why = []
+                back = spec_decode_delta([b & 0xFF for b in bs], bits, why)
+                if bad is None and (back is None or back[0] != sq or back[1] != used):
+                    bad = "%d values, %s (%s%s): writes %s%s, which the specification reads as %s" % (
+                        len(sq), label, ", ".join(str(x) for x in sq[:4]), ", ..." if len(sq) > 4 else "", bytes(b & 0xFF for b in bs[:24]).hex(), "..." if used > 24 else "",
+                        ("not a DELTA_BINARY_PACKED stream of this type" + (" (%s)" % why[0] if why else "")) if back is None else
+                        ("%s%s" % (back[0][:4], "..." if len(back[0]) > 4 else "") if back[0] != sq else "the sequence in %d bytes, not the %d reported" % (back[1], used)))
+        except (sem.Inconclusive, KeyError) as ex:
+            if bad:
+                ctx.ob(rule, key, P.where(fn.body), what, False, bad)
+                n += done
+                continue
+            ctx.inconclusive(rule, key, P.where(fn.body), what, "%s: %s" % (type(ex).__name__, ex))
+            continue
+        n += done
+        ctx.ob(rule, key, P.where(fn.body), what + " (%d sequences)" % done, bad is None, bad or "")
+    return n
+
+
 def spec_decode_hybrid(bs, w, count):
     """the specification's reading of concrete bytes"""
     out = []
@@ -595,4 +837,568 @@ def check_bss(ctx, rule="R42.byte-stream-split"):
             continue
         n += done
         ctx.ob(rule, key, P.where(fn.body), what + " (%d cases)" % done, bad is None, bad or "")
+    return n
+
+
+DL = "src/encoding/delta_length.c"
+DS = "src/encoding/delta_strings.c"
+
+
+def _ba_heap(base, items, data_base="str"):
+    """heap image of a carquet_byte_array_t[]: items = [(offset in data_base, length)]"""
+    h = {}
+    for i, (off, ln) in enumerate(items):
+        h[(base, 16 * i)] = Ptr(data_base, off, 1)
+        h[(base, 16 * i + 8)] = ln
+    return h
+
+
+def _alloc_hooks():
+    k = [0]
+
+    def m(ev, a, it):
+        k[0] += 1
+        return Ptr("heap%d" % k[0], 0, 1)
+    return {"malloc": m, "calloc": m, "free": lambda ev, a, it: None}
+
+
+def _framing_cases():
+    return [[3], [0], [3, 0, 5], [0, 0, 4], [1, 2, 3, 4, 5, 6, 7], [9, 9, 9, 9], [5, 0, 0, 2, 40], [2] * 33]
+
+
+def check_delta_length(ctx, rule="R42.delta-length"):
+    """DELTA_LENGTH_BYTE_ARRAY framing: <DELTA_BINARY_PACKED lengths> <all the bytes back to back>. The inner DELTA coder is
+    hooked (its own bytes are decided by C12.7): the decoder's value i must be the lengths[i] bytes that follow the lengths
+    block at the sum of the earlier lengths, and everything is reported consumed; the encoder must append the lengths block
+    (the lengths in order), then each value's bytes in order and nothing else."""
+    P = ctx.P
+    n = 0
+    dec = P.fn_opt("carquet_delta_length_decode", DL)
+    enc = P.fn_opt("carquet_delta_length_encode", DL)
+    if dec is not None:
+        key = "delta-length-decode|%s:carquet_delta_length_decode" % DL
+        what = ("carquet_delta_length_decode hands out, as value i, the lengths[i] bytes found after the lengths block at the sum of the earlier lengths, "
+                "and reports the lengths block plus all value bytes as consumed")
+        bad = None
+        done = 0
+        try:
+            for lens in _framing_cases():
+                for K in (7, 130):
+                    def dhook(ev, a, it, lens=lens, K=K):
+                        if not (isinstance(a[0], Ptr) and a[0].base == "in" and a[0].off == 0) or a[3] != len(lens) or not isinstance(a[2], Ptr):
+                            raise sem.Inconclusive("the inner DELTA decoder is called on something else than the start of the input for all values")
+                        for i, l in enumerate(lens):
+                            it.heap[(a[2].base, a[2].off + 4 * i)] = l
+                        sem.set_out(it, a[4], K)
+                        return 0
+                    total = K + sum(lens)
+                    ret, ev, heap = sem.run(P, dec, [Ptr("in", 0, 1), total + 4, Ptr("vals", 0, 16), len(lens), Ptr("used", 0, 8)], heap0={},
+                                            hooks=dict(_alloc_hooks(), carquet_delta_decode_int32=dhook), single=True, max_forks=8, budget=400000, inline_depth=4)
+                    done += 1
+                    lab = "lengths %s after a %d-byte lengths block" % (lens if len(lens) < 9 else "%d x %d" % (len(lens), lens[0]), K)
+                    if bad is not None:
+                        continue
+                    if ret != 0:
+                        bad = "%s: returns %r" % (lab, ret)
+                        continue
+                    if heap.get(("used", 0)) != total:
+                        bad = "%s: reports %r bytes consumed, the stream is %d bytes" % (lab, heap.get(("used", 0)), total)
+                        continue
+                    off = K
+                    for i, l in enumerate(lens):
+                        p, ln = heap.get(("vals", 16 * i)), heap.get(("vals", 16 * i + 8))
+                        if not isinstance(ln, int) or (ln & 0xFFFFFFFF) != l:
+                            bad = "%s: value %d gets length %r" % (lab, i, ln)
+                            break
+                        if l and not (isinstance(p, Ptr) and p.base == "in" and p.off == off):
+                            bad = "%s: value %d points at %s, its bytes start at input offset %d" % (lab, i, "input offset %r" % p.off if isinstance(p, Ptr) and p.base == "in" else repr(p)[:40], off)
+                            break
+                        off += l
+        except (sem.Inconclusive, KeyError) as ex:
+            if bad:
+                ctx.ob(rule, key, P.where(dec.body), what, False, bad)
+            else:
+                ctx.inconclusive(rule, key, P.where(dec.body), what, "%s: %s" % (type(ex).__name__, ex))
+            done = 0 if not bad else done
+        else:
+            ctx.ob(rule, key, P.where(dec.body), what + " (%d streams)" % done, bad is None, bad or "")
+        n += done
+    if enc is not None:
+        key = "delta-length-encode|%s:carquet_delta_length_encode" % DL
+        what = ("carquet_delta_length_encode appends the DELTA_BINARY_PACKED block of the lengths (in order), then every value's bytes in order, and nothing else")
+        bad = None
+        done = 0
+        try:
+            for lens in _framing_cases():
+                items = []
+                o = 0
+                for l in lens:
+                    items.append((o + 1000 * len(items), l))     # values far apart in memory: only the appended order matters
+                seen = {}
+
+                def ehook(ev, a, it, seen=seen):
+                    cnt = a[1]
+                    vals = [it.heap.get((a[0].base, a[0].off + 4 * i)) for i in range(cnt)] if isinstance(a[0], Ptr) and isinstance(cnt, int) else None
+                    seen["lens"] = vals
+                    seen["buf"] = a[2]
+                    sem.set_out(it, a[4], 11)
+                    return 0
+                app = []
+
+                def ahook(ev, a, it, app=app):
+                    app.append((a[1], a[2]))
+                    return 0
+                ret, ev, heap = sem.run(P, enc, [Ptr("vals", 0, 16), len(lens), Ptr("obuf", 0, 1)], heap0=_ba_heap("vals", items),
+                                        hooks=dict(_alloc_hooks(), carquet_delta_encode_int32=ehook, carquet_buffer_append=ahook), single=True, max_forks=8, budget=400000, inline_depth=4)
+                done += 1
+                lab = "lengths %s" % (lens if len(lens) < 9 else "%d x %d" % (len(lens), lens[0]))
+                if bad is not None:
+                    continue
+                if ret != 0:
+                    bad = "%s: returns %r" % (lab, ret)
+                    continue
+                if seen.get("lens") != lens:
+                    bad = "%s: the lengths handed to the DELTA encoder are %r" % (lab, seen.get("lens"))
+                    continue
+                exp = [("block", 11)] + [(off, l) for off, l in items if l]
+                got = []
+                for p, ln in app:
+                    if ln == 0:
+                        continue
+                    if isinstance(p, Ptr) and p.base == "str":
+                        got.append((p.off, ln))
+                    elif isinstance(p, Ptr) and isinstance(seen.get("buf"), Ptr) and p.base == seen["buf"].base and p.off == seen["buf"].off:
+                        got.append(("block", ln))
+                    else:
+                        got.append(("?", repr(p)[:30], ln))
+                if got != exp:
+                    k = next((i for i, (x, y) in enumerate(zip(got, exp)) if x != y), min(len(got), len(exp)))
+                    bad = "%s: append number %d is %s, the format has %s there" % (lab, k + 1, got[k] if k < len(got) else "missing", exp[k] if k < len(exp) else "nothing more")
+        except (sem.Inconclusive, KeyError) as ex:
+            if bad:
+                ctx.ob(rule, key, P.where(enc.body), what, False, bad)
+            else:
+                ctx.inconclusive(rule, key, P.where(enc.body), what, "%s: %s" % (type(ex).__name__, ex))
+                done = 0
+        else:
+            ctx.ob(rule, key, P.where(enc.body), what + " (%d sequences)" % done, bad is None, bad or "")
+        n += done
+    return n
+
+
+def _string_cases():
+    """(strings as byte lists): shared prefixes growing, shrinking, absent, whole-string repeats, empty strings"""
+    S = lambda t: [ord(c) for c in t]
+    return [
+        [S("apple")],
+        [S("apple"), S("applesauce"), S("apply"), S("banana")],
+        [S(""), S("a"), S(""), S("ab"), S("ab"), S("abc")],
+        [S("prefix-0001"), S("prefix-0002"), S("prefix-0010"), S("prefix-0010"), S("pre")],
+        [S("xyz"), S("xy"), S("x"), S(""), S("x"), S("xy")],
+        [S("k%02d" % (i // 3)) for i in range(34)],
+    ]
+
+
+def check_delta_strings(ctx, rule="R42.delta-strings"):
+    """DELTA_BYTE_ARRAY: <DELTA_BINARY_PACKED prefix lengths> <DELTA_LENGTH_BYTE_ARRAY suffixes>; value i is the first
+    prefix[i] bytes of value i-1 followed by suffix i. The inner DELTA coder is hooked. Decoder: suffix bytes are opaque and
+    every byte of every value handed out must be the byte of the input the specification names. Encoder: concrete strings;
+    the prefix / suffix lengths handed to the DELTA encoder and the bytes appended, read by the specification, must give
+    the strings back (any prefix length up to the common prefix is accepted - only the reconstruction is judged)."""
+    P = ctx.P
+    n = 0
+    dec = P.fn_opt("carquet_delta_strings_decode", DS)
+    enc = P.fn_opt("carquet_delta_strings_encode", DS)
+    if dec is not None:
+        key = "delta-strings-decode|%s:carquet_delta_strings_decode" % DS
+        what = ("carquet_delta_strings_decode hands out, as value i, the first prefix[i] bytes of value i-1 followed by the suffix[i] bytes found after the two "
+                "lengths blocks at the sum of the earlier suffix lengths, and reports both blocks plus all suffix bytes as consumed")
+        bad = None
+        done = 0
+        try:
+            for strs in _string_cases():
+                pre, suf = [], []
+                for i, st in enumerate(strs):
+                    lcp = 0
+                    if i:
+                        while lcp < min(len(st), len(strs[i - 1])) and st[lcp] == strs[i - 1][lcp]:
+                            lcp += 1
+                    pre.append(lcp)
+                    suf.append(len(st) - lcp)
+                for K1, K2, shorter in ((7, 9, 0), (130, 5, 1)):
+                    pr = [max(0, p - shorter) for p in pre]          # a writer may share less than the common prefix
+                    sf = [len(st) - p for st, p in zip(strs, pr)]
+                    calls = []
+
+                    def dhook(ev, a, it, pr=pr, sf=sf, K1=K1, K2=K2, calls=calls):
+                        want = (0, pr, K1) if not calls else (K1, sf, K2)
+                        if len(calls) > 1 or not (isinstance(a[0], Ptr) and a[0].base == "in" and a[0].off == want[0]) or a[3] != len(pr) or not isinstance(a[2], Ptr):
+                            calls.append("bad")
+                            raise sem.Inconclusive("the inner DELTA decoder is not called on the two lengths blocks in turn (call %d at %r)" % (len(calls), a[0]))
+                        calls.append(a[0].off)
+                        for i, l in enumerate(want[1]):
+                            it.heap[(a[2].base, a[2].off + 4 * i)] = l
+                        sem.set_out(it, a[4], want[2])
+                        return 0
+                    total = K1 + K2 + sum(sf)
+                    mem = lambda base, off, size, total=total: Sym(("load", "in", off, 8), 8) if base == "in" and size == 1 and 0 <= off < total else None
+                    wsize = sum(len(s_) for s_ in strs) + 8
+                    ret, ev, heap = sem.run(P, dec, [Ptr("in", 0, 1), total + 4, Ptr("vals", 0, 16), len(strs), Ptr("work", 0, 1), wsize, Ptr("used", 0, 8)], heap0={},
+                                            hooks=dict(_alloc_hooks(), carquet_delta_decode_int32=dhook), single=True, memory=mem, max_forks=8, budget=2000000, inline_depth=4)
+                    done += 1
+                    lab = "prefix lengths %s, suffix lengths %s" % (pr[:8], sf[:8])
+                    if bad is not None:
+                        continue
+                    if ret != 0:
+                        bad = "%s: returns %r" % (lab, ret)
+                        continue
+                    if heap.get(("used", 0)) != total:
+                        bad = "%s: reports %r bytes consumed, the stream is %d bytes" % (lab, heap.get(("used", 0)), total)
+                        continue
+                    # the specification's reading: value i as a list of input offsets
+                    exp, off, prev = [], K1 + K2, []
+                    for p, s_ in zip(pr, sf):
+                        cur = prev[:p] + list(range(off, off + s_))
+                        off += s_
+                        exp.append(cur)
+                        prev = cur
+                    for i, cur in enumerate(exp):
+                        p, ln = heap.get(("vals", 16 * i)), heap.get(("vals", 16 * i + 8))
+                        if not isinstance(ln, int) or (ln & 0xFFFFFFFF) != len(cur):
+                            bad = "%s: value %d gets length %r, the stream gives it %d bytes" % (lab, i, ln, len(cur))
+                            break
+                        if not cur:
+                            continue
+                        if not isinstance(p, Ptr) or not isinstance(p.off, int):
+                            raise sem.Inconclusive("value %d points at %r" % (i, p))
+                        for j, src_off in enumerate(cur):
+                            b = heap.get((p.base, p.off + j))
+                            if b is None and p.base == "in":
+                                b = Sym(("load", "in", p.off + j, 8), 8)
+                            t = b.t if isinstance(b, Sym) else None
+                            while isinstance(t, tuple) and t and t[0] == "cast":
+                                t = t[2]
+                            if not (isinstance(t, tuple) and t[:2] == ("load", "in")):
+                                raise sem.Inconclusive("byte %d of value %d is %r" % (j, i, b))
+                            if t[2] != src_off:
+                                bad = "%s: byte %d of value %d is input byte %d, the specification names input byte %d" % (lab, j, i, t[2], src_off)
+                                break
+                        if bad:
+                            break
+        except (sem.Inconclusive, KeyError) as ex:
+            if bad:
+                ctx.ob(rule, key, P.where(dec.body), what, False, bad)
+            else:
+                ctx.inconclusive(rule, key, P.where(dec.body), what, "%s: %s" % (type(ex).__name__, ex))
+                done = 0
+        else:
+            ctx.ob(rule, key, P.where(dec.body), what + " (%d streams)" % done, bad is None, bad or "")
+        n += done
+    if enc is not None:
+        key = "delta-strings-encode|%s:carquet_delta_strings_encode" % DS
+        what = ("what carquet_delta_strings_encode hands to the DELTA encoder (prefix lengths, then suffix lengths) and appends (the two blocks, then the suffix bytes "
+                "in order), read by the specification, gives the strings back")
+        bad = None
+        done = 0
+        try:
+            for strs in _string_cases():
+                heap0, items, o = {}, [], 0
+                for st in strs:
+                    items.append((o, len(st)))
+                    for j, c in enumerate(st):
+                        heap0[("str", o + j)] = c
+                    o += len(st) + 5
+                heap0.update(_ba_heap("vals", items))
+                seen = []
+
+                def ehook(ev, a, it, seen=seen):
+                    cnt = a[1]
+                    vals = [it.heap.get((a[0].base, a[0].off + 4 * i)) for i in range(cnt)] if isinstance(a[0], Ptr) and isinstance(cnt, int) else None
+                    seen.append((vals, a[2]))
+                    sem.set_out(it, a[4], 11 + 2 * len(seen))
+                    return 0
+                app = []
+
+                def ahook(ev, a, it, app=app, seen=seen):
+                    app.append((a[1], a[2], len(seen)))
+                    return 0
+                ret, ev, heap = sem.run(P, enc, [Ptr("vals", 0, 16), len(strs), Ptr("obuf", 0, 1)], heap0=heap0,
+                                        hooks=dict(_alloc_hooks(), carquet_delta_encode_int32=ehook, carquet_buffer_append=ahook), single=True, max_forks=8, budget=2000000, inline_depth=4)
+                done += 1
+                lab = "strings %s" % [bytes(s_).decode() for s_ in strs[:6]]
+                if bad is not None:
+                    continue
+                if ret != 0:
+                    bad = "%s: returns %r" % (lab, ret)
+                    continue
+                if len(seen) != 2 or any(v is None or len(v) != len(strs) or any(not isinstance(x, int) for x in v) for v, _ in seen):
+                    bad = "%s: the DELTA encoder is called %d time(s) with %r" % (lab, len(seen), [v for v, _ in seen])
+                    continue
+                pr, sf = seen[0][0], seen[1][0]
+                app = [x for x in app if x[1] != 0]
+                if len(app) < 2 or [(x[1], x[2]) for x in app[:2]] != [(13, 1), (15, 2)] or any(not (isinstance(x[0], Ptr) and isinstance(sb, Ptr) and x[0].base == sb.base and x[0].off == sb.off)
+                                                                                               for x, (_, sb) in zip(app[:2], seen)):
+                    bad = "%s: the output does not start with the prefix-lengths block followed by the suffix-lengths block (appends %s)" % (lab, [(repr(x[0])[:24], x[1]) for x in app[:3]])
+                    continue
+                body = []
+                for p, ln, _ in app[2:]:
+                    if not (isinstance(p, Ptr) and p.base == "str" and isinstance(p.off, int) and isinstance(ln, int)):
+                        raise sem.Inconclusive("appends %r, %r" % (p, ln))
+                    body += [heap0.get(("str", p.off + j)) for j in range(ln)]
+                out, prev, off = [], [], 0
+                for p, s_ in zip(pr, sf):
+                    if p < 0 or s_ < 0 or p > len(prev) or off + s_ > len(body):
+                        out = None
+                        break
+                    cur = prev[:p] + body[off:off + s_]
+                    off += s_
+                    out.append(cur)
+                    prev = cur
+                if out is None or out != strs or off != len(body):
+                    k = next((i for i, (x, y) in enumerate(zip(out or [], strs)) if x != y), None)
+                    bad = "%s: prefix lengths %s, suffix lengths %s and %d suffix bytes read back as %s" % (
+                        lab, pr[:8], sf[:8], len(body), "no valid stream" if out is None else ("the strings plus %d stray bytes" % (len(body) - off) if k is None else
+                                                                                          "value %d = %r" % (k, bytes(x for x in out[k] if isinstance(x, int)))))
+        except (sem.Inconclusive, KeyError) as ex:
+            if bad:
+                ctx.ob(rule, key, P.where(enc.body), what, False, bad)
+            else:
+                ctx.inconclusive(rule, key, P.where(enc.body), what, "%s: %s" % (type(ex).__name__, ex))
+                done = 0
+        else:
+            ctx.ob(rule, key, P.where(enc.body), what + " (%d sequences)" % done, bad is None, bad or "")
+        n += done
+    return n
+
+
+PL = "src/encoding/plain.c"
+
+
+def _flatten(heap, base, n):
+    """the first n bytes of a buffer whose heap image mixes byte stores and wider little-endian scalar stores"""
+    keys = sorted(o for (b, o) in heap if b == base and isinstance(o, int) and 0 <= o < n)
+    out = [None] * n
+    for i, o in enumerate(keys):
+        v = heap[(base, o)]
+        if not isinstance(v, int):
+            continue
+        nxt = keys[i + 1] if i + 1 < len(keys) else n
+        w = min(nxt, n) - o
+        if w > 8:
+            w = 1
+        for k in range(w):
+            out[o + k] = (v >> (8 * k)) & 0xFF
+    return out
+
+
+def _plain_values(kind):
+    if kind == "boolean":
+        return [[1], [0, 1, 1, 0, 0, 0, 0, 1], [1, 0, 0, 1, 0, 0, 0, 0, 0, 1, 1], [1] * 16 + [0, 1], [0] * 9 + [1]]
+    if kind == 4:
+        return [[0x11223344], [0x11223344, 0xA1B2C3D4, 0x7F6E5D4C], [0x01020304 + 0x10101010 * i for i in range(9)]]
+    if kind == 8:
+        return [[0x1122334455667788], [0x1122334455667788, 0xA1B2C3D4E5F60718, 0x7F6E5D4C3B2A1909], [0x0102030405060708 + 0x1010101010101010 * i for i in range(5)]]
+    if kind == 12:
+        return [[(0x11223344, 0x55667788, 0x99AABBCC)], [(0x01020304 + 0x10101010 * i, 0x0A0B0C0D + 0x01010101 * i, 0xF1E1D1C1 - 0x01010101 * i) for i in range(4)]]
+    raise KeyError(kind)
+
+
+def _le(v, w):
+    return [(v >> (8 * k)) & 0xFF for k in range(w)]
+
+
+def check_plain(ctx, rule="R42.plain"):
+    """PLAIN, both directions, on concrete values whose bytes are all different from each other where it matters: fixed-width
+    values are little-endian and back to back (INT96: three 32-bit words in order), booleans are one bit each, least
+    significant bit first, padded to a byte, BYTE_ARRAY is a 4-byte little-endian length followed by the bytes,
+    FIXED_LEN_BYTE_ARRAY is the bytes alone. The encoders run through the real output-buffer code; the decoders' return value
+    is the number of stream bytes."""
+    P = ctx.P
+    n = 0
+    bo = sem.field_offsets(P, "carquet_buffer")
+
+    def buf0():
+        return {("buf", bo["data"]): Ptr("ob", 0, 1), ("buf", bo["size"]): 0, ("buf", bo["capacity"]): 1 << 20}
+    fixed = (("int32", 4), ("int64", 8), ("float", 4), ("double", 8), ("int96", 12))
+    # ---- encoders
+    enc_cases = []
+    for tname, W in fixed:
+        for vals in _plain_values(W):
+            if W == 12:
+                h = {("val", 12 * i + 4 * j): w_ for i, v in enumerate(vals) for j, w_ in enumerate(v)}
+                exp = [b for v in vals for w_ in v for b in _le(w_, 4)]
+            else:
+                h = {("val", W * i): v for i, v in enumerate(vals)}
+                exp = [b for v in vals for b in _le(v, W)]
+            enc_cases.append(("carquet_encode_plain_" + tname, [Ptr("val", 0, 4 if W == 12 else W), len(vals)], h, exp, "%d value(s)" % len(vals)))
+    for vals in _plain_values("boolean"):
+        exp = [0] * ((len(vals) + 7) // 8)
+        for i, v in enumerate(vals):
+            exp[i // 8] |= v << (i % 8)
+        enc_cases.append(("carquet_encode_plain_boolean", [Ptr("val", 0, 1), len(vals)], {("val", i): v for i, v in enumerate(vals)}, exp, "booleans %s" % vals[:12]))
+    S = lambda t: [ord(c) for c in t]
+    for strs in ([S("abc")], [S(""), S("parquet"), S("x")], [S("a" * 300), S(""), S("bc")]):
+        h, items, o = {}, [], 0
+        for st in strs:
+            items.append((o, len(st)))
+            for j, c in enumerate(st):
+                h[("str", o + j)] = c
+            o += len(st) + 3
+        h.update(_ba_heap("val", items))
+        exp = [b for st in strs for b in _le(len(st), 4) + st]
+        enc_cases.append(("carquet_encode_plain_byte_array", [Ptr("val", 0, 16), len(strs)], h, exp, "byte arrays of lengths %s" % [len(s_) for s_ in strs]))
+    for L, cnt in ((1, 3), (5, 2), (16, 3)):
+        data = [(17 * i + 3) & 0xFF for i in range(L * cnt)]
+        enc_cases.append(("carquet_encode_plain_fixed_byte_array", [Ptr("val", 0, 1), cnt, L], {("val", i): b for i, b in enumerate(data)}, data, "%d values of %d bytes" % (cnt, L)))
+    by_fn = {}
+    for c in enc_cases:
+        by_fn.setdefault(c[0], []).append(c)
+    for name, cases in by_fn.items():
+        fn = P.fn_opt(name, PL)
+        if fn is None:
+            continue
+        key = "plain-encode|%s:%s" % (PL, name)
+        what = "%s appends exactly the specification's PLAIN bytes for the values it is given" % name
+        bad, done = None, 0
+        try:
+            for _, args, h, exp, lab in cases:
+                hh = dict(h)
+                hh.update(buf0())
+                ret, ev, heap = sem.run(P, fn, args + [Ptr("buf", 0, 1)], heap0=hh, hooks={}, single=True, max_forks=8, budget=3000000, inline_depth=6)
+                done += 1
+                if bad is not None:
+                    continue
+                size = heap.get(("buf", bo["size"]))
+                if ret != 0 or not isinstance(size, int):
+                    raise sem.Inconclusive("%s: returns %r with buffer size %r" % (lab, ret, size))
+                got = _flatten(heap, "ob", size)
+                zs = set()
+                for zb, zl, zh in heap.get(("\0zeroed", 0), ()):
+                    if zb == "ob":
+                        zs |= set(range(zl, zh))
+                got = [0 if (b is None and i in zs) else b for i, b in enumerate(got)]
+                if size == len(exp) and any(b is None for b in got):
+                    raise sem.Inconclusive("%s: some appended bytes are not known" % lab)
+                if got != exp:
+                    k = next((i for i, (x, y) in enumerate(zip(got, exp)) if x != y), min(len(got), len(exp)))
+                    bad = "%s: appends %d bytes %s..., the specification has %d bytes %s... (first difference at byte %d)" % (
+                        lab, size, bytes(b or 0 for b in got[:20]).hex(), len(exp), bytes(exp[:20]).hex(), k)
+        except (sem.Inconclusive, KeyError) as ex:
+            if bad:
+                ctx.ob(rule, key, P.where(fn.body), what, False, bad)
+            else:
+                ctx.inconclusive(rule, key, P.where(fn.body), what, "%s: %s" % (type(ex).__name__, ex))
+                done = 0
+        else:
+            ctx.ob(rule, key, P.where(fn.body), what + " (%d cases)" % done, bad is None, bad or "")
+        n += done
+    # ---- decoders (directly and through the generic entry point)
+    try:
+        pt = P.enum("carquet_physical_type")
+    except Exception:
+        pt = {}
+    generic = P.fn_opt("carquet_decode_plain", PL)
+    tconst = {"boolean": "CARQUET_PHYSICAL_BOOLEAN", "int32": "CARQUET_PHYSICAL_INT32", "int64": "CARQUET_PHYSICAL_INT64", "int96": "CARQUET_PHYSICAL_INT96",
+              "float": "CARQUET_PHYSICAL_FLOAT", "double": "CARQUET_PHYSICAL_DOUBLE", "byte_array": "CARQUET_PHYSICAL_BYTE_ARRAY",
+              "fixed_byte_array": "CARQUET_PHYSICAL_FIXED_LEN_BYTE_ARRAY"}
+    dec_cases = []       # (type name, stream, count, fixed_len, expectation(heap) -> problem or None, label)
+
+    def exp_scalars(vals, W, words):
+        def f(heap):
+            flat = _flatten(heap, "out", len(vals) * W)
+            want = [b for v in vals for w_ in (v if words else (v,)) for b in _le(w_, 4 if words else W)]
+            if any(b is None for b in flat):
+                return "?"
+            if flat != want:
+                k = next(i for i, (x, y) in enumerate(zip(flat, want)) if x != y)
+                return "value %d comes out as bytes %s, the stream holds %s" % (k // W, bytes(flat[k // W * W:k // W * W + W]).hex(), bytes(want[k // W * W:k // W * W + W]).hex())
+            return None
+        return f
+    for tname, W in fixed:
+        for vals in _plain_values(W):
+            stream = [b for v in vals for w_ in (v if W == 12 else (v,)) for b in _le(w_, 4 if W == 12 else W)]
+            dec_cases.append((tname, stream, len(vals), 0, exp_scalars(vals, W, W == 12), "%d value(s)" % len(vals), W))
+    for vals in _plain_values("boolean"):
+        stream = [0] * ((len(vals) + 7) // 8)
+        for i, v in enumerate(vals):
+            stream[i // 8] |= v << (i % 8)
+        # the padding bits of the last byte may hold anything
+        if len(vals) % 8:
+            stream[-1] |= (0xFF << (len(vals) % 8)) & 0xFF
+
+        def fb(heap, vals=vals):
+            got = [heap.get(("out", i)) for i in range(len(vals))]
+            if any(not isinstance(g, int) for g in got):
+                return "?"
+            if [int(bool(g & 0xFF)) for g in got] != vals:
+                k = next(i for i, (x, y) in enumerate(zip(got, vals)) if int(bool(x & 0xFF)) != y)
+                return "boolean %d comes out as %d, the stream holds %d" % (k, got[k], vals[k])
+            return None
+        dec_cases.append(("boolean", stream, len(vals), 0, fb, "booleans %s with set padding bits" % vals[:12], 1))
+    for strs in ([S("abc")], [S(""), S("parquet"), S("x")], [S("a" * 300), S(""), S("bc")]):
+        stream = [b for st in strs for b in _le(len(st), 4) + st]
+
+        def fs(heap, strs=strs):
+            off = 0
+            for i, st in enumerate(strs):
+                p, ln = heap.get(("out", 16 * i)), heap.get(("out", 16 * i + 8))
+                off += 4
+                if not isinstance(ln, int) or (ln & 0xFFFFFFFF) != len(st):
+                    return "value %d gets length %r, the stream says %d" % (i, ln, len(st))
+                if st and not (isinstance(p, Ptr) and p.base == "in" and p.off == off):
+                    return "value %d points at %s, its bytes are at input offset %d" % (i, "input offset %r" % p.off if isinstance(p, Ptr) and p.base == "in" else repr(p)[:30], off)
+                off += len(st)
+            return None
+        dec_cases.append(("byte_array", stream, len(strs), 0, fs, "byte arrays of lengths %s" % [len(s_) for s_ in strs], 16))
+    for L, cnt in ((1, 3), (5, 2), (16, 3)):
+        data = [(17 * i + 3) & 0xFF for i in range(L * cnt)]
+
+        def ff(heap, data=data):
+            got = _flatten(heap, "out", len(data))
+            if any(b is None for b in got):
+                return "?"
+            return None if got == data else "the values come out as %s..., the stream holds %s..." % (bytes(got[:12]).hex(), bytes(data[:12]).hex())
+        dec_cases.append(("fixed_byte_array", data, cnt, L, ff, "%d values of %d bytes" % (cnt, L), 1))
+    by_t = {}
+    for c in dec_cases:
+        by_t.setdefault(c[0], []).append(c)
+    for tname, cases in by_t.items():
+        for via in ("direct", "generic"):
+            name = "carquet_decode_plain_" + tname
+            fn = P.fn_opt(name, PL) if via == "direct" else generic
+            if fn is None or (via == "generic" and tconst[tname] not in pt):
+                continue
+            key = "plain-decode|%s:%s%s" % (PL, name, "" if via == "direct" else "|via carquet_decode_plain")
+            what = ("%s returns the values of a specification-written PLAIN stream and the number of stream bytes" % name) + (
+                "" if via == "direct" else " when reached through carquet_decode_plain(%s)" % tconst[tname])
+            bad, done = None, 0
+            try:
+                for _, stream, cnt, L, expf, lab, esz in cases:
+                    data = stream + [0xEE] * 5
+                    heap0 = {("in", i): b for i, b in enumerate(data)}
+                    if via == "direct":
+                        args = [Ptr("in", 0, 1), len(data), Ptr("out", 0, esz if esz != 12 else 4), cnt] + ([L] if tname == "fixed_byte_array" else [])
+                    else:
+                        args = [Ptr("in", 0, 1), len(data), pt[tconst[tname]], L, Ptr("out", 0, esz if esz != 12 else 4), cnt]
+                    ret, ev, heap = sem.run(P, fn, args, heap0=heap0, hooks={}, single=True, max_forks=8, budget=3000000, inline_depth=6)
+                    done += 1
+                    if bad is not None:
+                        continue
+                    if ret != len(stream):
+                        bad = "%s: returns %r, the stream is %d bytes" % (lab, ret, len(stream))
+                        continue
+                    pr = expf(heap)
+                    if pr == "?":
+                        raise sem.Inconclusive("%s: some output bytes are not known" % lab)
+                    if pr:
+                        bad = "%s: %s" % (lab, pr)
+            except (sem.Inconclusive, KeyError) as ex:
+                if bad:
+                    ctx.ob(rule, key, P.where(fn.body), what, False, bad)
+                else:
+                    ctx.inconclusive(rule, key, P.where(fn.body), what, "%s: %s" % (type(ex).__name__, ex))
+                    done = 0
+            else:
+                ctx.ob(rule, key, P.where(fn.body), what + " (%d streams)" % done, bad is None, bad or "")
+            n += done
     return n
